@@ -124,6 +124,9 @@ func VHC14Wrapper() {
 	s := vh.Bytes("s", 1) // a symbolic byte that travels through program text and data
 	vh.Assume(vh.Not(vh.OneOf(s[0], "'\"\\\n\r")))
 	prog := "BEGIN { print '" + s + "' }\n" + c14Prog
+	if vh.Choose("beginonly", 2) == 1 {
+		prog = "BEGIN { print '" + s + "', 'only' }" // a program that never looks at the input still has it read (-o, faults)
+	}
 	src := vh.Choose("progsrc", 2) // 0 inline, 1 -f
 	inp := vh.Choose("inputs", 6)  // 0 stdin, 1 one file, 2 two files, 3 a missing file, 4 the same file twice, 5 the input file is also the -o file
 	nsel := vh.Choose("nsel", 4)   // 0-2 selectors, or one whose text holds commas, blanks and the symbolic byte
